@@ -287,7 +287,11 @@ def branchResult (r : String) (a : RsArg) (w : World) : Option (Except PyErr (Ge
   if r == "entropy" then some (.ok ({ id := w.next, state := w.entropy }, { w with next := w.next + 1 }))
   else if r == "seeded" then
     match a with
-    | .int s => some (.ok ({ id := w.next, state := seedState s }, { w with next := w.next + 1 }))
+    | .int s =>
+      -- numpy: `RandomState(seed)` raises ValueError unless 0 ≤ seed < 2^32
+      if 0 ≤ s ∧ s < 4294967296 then
+        some (.ok ({ id := w.next, state := seedState s }, { w with next := w.next + 1 }))
+      else some (.error .valueError)
     | _ => Option.none
   else if r == "same" then
     match a with
